@@ -177,6 +177,12 @@ func Main(run *hx.Run, model *hx.Model, label string, props []string, kinds []st
 		}
 		if len(fs) > 0 {
 			first := fs[0]
+			for _, f := range fs {
+				if f.Kind == "oracle" {
+					first = f
+					break
+				}
+			}
 			small := hx.Shrink(script, 1, func(sc []string) bool {
 				for _, f := range exec(name, sc) {
 					if f.What == first.What {
